@@ -161,3 +161,46 @@ def run_runpos(p: Project, clause: str, modules, floor: int) -> RuleResult:
             if not ok:
                 rr.add(finding("RUNPOS", fi, t, f"the run `{norm(t, 50)}` is written into the canvas although nothing on the way to it shows `{ast.unparse(L)}` > 0 (known there: {', '.join(f'{lin_str(e)} {o} 0' for e, o in facts) or 'nothing'}): a run of length 0 makes TextCanvas.content() yield an empty row - a row 0 columns wide in a canvas that is {next(iter(size_elems), 'maxcol')} wide", construct=f"run length {ast.unparse(L)} not shown positive"))
     return rr
+
+
+def run_runpos_returns(p: Project, clause: str, funcs, floor: int) -> RuleResult:
+    """The same obligation for functions that *return* run lists (util._tagmarkup_recurse: the attribute runs of text
+    markup): a returned run `(v, len(X))` needs X shown non-empty where the tuple is built - by the test of an enclosing
+    conditional expression (`[...] if X else []`) or by a dominating `if X:` / `if not X: return`.  Before fix f28b40b
+    an empty string in the markup produced the run ('b', 0) and rle_product() ended the rendered row there."""
+    rr = RuleResult("RUNPOS", clause, "every (value, length) run a markup function returns has a length shown positive (the measured text is tested non-empty)", floor=floor)
+    for q in funcs:
+        fi = p.func(q)
+        cfg = cfg_of(fi)
+        parents = {id(ch): par for par in ast.walk(fi.node) for ch in ast.iter_child_nodes(par)}
+        owner = {}
+        for cn in cfg.nodes:
+            for e in node_exprs(cn):
+                for x in ast.walk(e):
+                    owner.setdefault(id(x), cn)
+        for r in [n for n in fi.own_nodes() if isinstance(n, ast.Return) and n.value is not None]:
+            for t in [x for x in ast.walk(r.value) if isinstance(x, ast.Tuple) and len(x.elts) == 2 and isinstance(x.elts[1], ast.Call) and isinstance(x.elts[1].func, ast.Name) and x.elts[1].func.id == "len" and x.elts[1].args and isinstance(x.elts[1].args[0], ast.Name)]:
+                nm = t.elts[1].args[0].id
+                ok = False
+                x = t
+                while id(x) in parents and not isinstance(x, ast.stmt):
+                    par = parents[id(x)]
+                    if isinstance(par, ast.IfExp) and par.body is x and isinstance(par.test, ast.Name) and par.test.id == nm:
+                        ok = True
+                    if isinstance(par, ast.IfExp) and par.orelse is x and isinstance(par.test, ast.UnaryOp) and isinstance(par.test.op, ast.Not) and isinstance(par.test.operand, ast.Name) and par.test.operand.id == nm:
+                        ok = True
+                    x = par
+                cn = owner.get(id(t))
+                if not ok and cn is not None:
+                    for tn in cfg.nodes:
+                        if tn.kind != "test":
+                            continue
+                        if isinstance(tn.ast, ast.Name) and tn.ast.id == nm and cn not in ExcEngine._reach_without_edge(cfg, tn, "T"):
+                            ok = True
+                        if isinstance(tn.ast, ast.UnaryOp) and isinstance(tn.ast.op, ast.Not) and isinstance(tn.ast.operand, ast.Name) and tn.ast.operand.id == nm and cn not in ExcEngine._reach_without_edge(cfg, tn, "F"):
+                            ok = True
+                ident = f"{short(fi)}: {norm(t, 40)}"
+                rr.inst(ident, True, {"run": ident, "measured": nm, "shown_non_empty": ok})
+                if not ok:
+                    rr.add(finding("RUNPOS", fi, t, f"the run `{norm(t, 40)}` is returned without `{nm}` being shown non-empty: an empty string in the markup ([('a', 'x'), ('b', ''), ('c', 'y')]) gives a run of length 0, rle_product() stops there and the rendered row ends after the text before it", construct=f"run length len({nm}) not shown positive"))
+    return rr
